@@ -483,6 +483,8 @@ class VCGen:
             s.safe(st, f'bound:{nm}', st.env['__b_' + nm][0], e.lineno)
             st.env[nm] = (fresh(nm, dt), dt)
             return st.env[nm]
+        if s.specmode and nm in s.cur.get('_alias', {}) and s.cur['_alias'][nm] in st.env:
+            return st.env[s.cur['_alias'][nm]]
         if s.specmode:
             if nm == 'NONEVAL':
                 return Const('VAL_None', sort(VAL)), VAL
@@ -1097,7 +1099,7 @@ class VCGen:
                     a_, _ = s.ev(e.args[0], st)
                     return s.pv().is_pD(a_), BOOL
                 if nm == 'bound':
-                    b_ = st.env.get('__b_' + e.args[0].id)
+                    b_ = st.env.get('__b_' + s.cur.get('_alias', {}).get(e.args[0].id, e.args[0].id))
                     return (b_[0] if b_ else BoolVal(True)), BOOL
                 if nm == 'fp':
                     from z3 import FPVal, Float64
@@ -1627,7 +1629,12 @@ class VCGen:
 
     # ---------------------------------------------------------------- assignment
     def declared(s, name):
-        return s.cur['locals'].get(name)
+        d = s.cur['locals'].get(name)
+        if d is None:
+            old = s.cur.get('_alias_rev', {}).get(name)      # a local renamed since the contract was written (same position, see run())
+            if old is not None:
+                d = s.cur['locals'].get(old)
+        return d
 
     def assign(s, tg, v, t, st, line):
         if isinstance(tg, ast.Name):
@@ -1715,12 +1722,23 @@ class VCGen:
         raise Unsupported('assignment target')
 
     # ---------------------------------------------------------------- statements
+    def st_Continue(s, n, st):
+        st.env['__jump'] = ('continue', NONE)
+        return [st]
+
+    def st_Break(s, n, st):
+        st.env['__jump'] = ('break', NONE)
+        return [st]
+
     def block(s, body, st):
         cur = [st]
         for n in body:
             nxt = []
             for t in cur:
-                nxt += s.stmt(n, t)
+                if '__jump' in t.env:       # a path that hit `continue` / `break` skips the rest of the loop body
+                    nxt.append(t)
+                else:
+                    nxt += s.stmt(n, t)
             cur = nxt
             if len(cur) > s.cur.get('max_paths', 400):
                 raise Unsupported(f'path explosion ({len(cur)} paths) in {s.cur["name"]}')
@@ -2208,7 +2226,12 @@ class VCGen:
         s.run_ghosts(sp, b, 'ghost_pre')
         for k, h in enumerate(sp.get('hint_pre', [])):
             s.hint(b, h, f'hint-pre#L{ordn}.{k}', n.lineno)
+        broke = []
         for t in s.block(n.body, b):
+            jump = t.env.pop('__jump', (None, None))[0]
+            if jump == 'break':             # leaves the loop from this very state (the invariant is not re-established)
+                broke.append(t)
+                continue
             s.run_ghosts(sp, t, 'ghost_post')
             for k, h in enumerate(sp.get('hint', [])):
                 s.hint(t, h, f'hint#L{ordn}.{k}', n.lineno)
@@ -2249,7 +2272,9 @@ class VCGen:
                 bexpr = sp.get('bound_after', {}).get(v)
                 if bexpr:
                     a.env['__bound_' + v] = (s.spec_eval(bexpr, a, 0), BOOL)
-        return [a]
+        if broke and (s.cur.get('ghost_after_loop', {}).get(ordn) or sp.get('hint_exit') or sp.get('use_exit')):
+            raise Unsupported('break in a loop whose contract has exit annotations')
+        return [a] + broke
 
     def st_For(s, n, st):
         if n.orelse:
@@ -2558,6 +2583,17 @@ class VCGen:
             if k not in c['_loopnum'].values():
                 raise ContractError(f'{qual}: contract names loop #{k} but the function has {len(c["_loopnum"])} loops')
         s.cur = c
+        # locals renamed since the contract was written: the contract refers to locals by name; the lock file records the
+        # order of first assignment of the locals of each function, and a function with the same number of locals in which
+        # some names differ is read with the old names as aliases of the new ones (a wrong guess can only make an obligation
+        # fail to prove -- the obligations are still about the real code)
+        cur_locals = local_order(fn)
+        lock_locals = getattr(s, 'locals_lock', {}).get(qual)
+        c['_locals_order'] = cur_locals
+        if lock_locals and cur_locals != lock_locals and len(cur_locals) == len(lock_locals):
+            al = {o: n_ for o, n_ in zip(lock_locals, cur_locals) if o != n_ and o not in cur_locals and n_ not in lock_locals}
+            c['_alias'] = al
+            c['_alias_rev'] = {v: k for k, v in al.items()}
         st = s.init_state(c)
         # parameters of the real function must match the contract
         real = [a.arg for a in fn.args.args]
@@ -2579,7 +2615,7 @@ class VCGen:
         if c.get('cut_before_assign') and not c.get('_cut_reached'):
             raise ContractError(f'{qual}: the assignment to {c["cut_before_assign"]!r} that ends the contracted prefix was not found')
         info = dict(name=qual, src_hash=sha(mod.segment(fn)), contract_hash=sha(repr(sorted((k, repr(v)) for k, v in s.contracts[qual].items() if not k.startswith('_') and not callable(v)))),
-                    lines=(fn.lineno, fn.end_lineno), n=len(s.obligs) - n0)
+                    lines=(fn.lineno, fn.end_lineno), n=len(s.obligs) - n0, locals_order=c.get('_locals_order', []), aliases=c.get('_alias', {}))
         return s.obligs[n0:], info
 
 
@@ -2671,6 +2707,17 @@ def _patterns_for(k, f):
             walk(c)
     walk(f)
     return list(found.values())[:6]
+
+
+def local_order(fn):
+    """names assigned in the function, in source order of their first assignment (parameters excluded)"""
+    params = {a.arg for a in fn.args.args}
+    seen = []
+    stores = [x for x in ast.walk(fn) if isinstance(x, ast.Name) and isinstance(x.ctx, ast.Store)]
+    for x in sorted(stores, key=lambda x: (x.lineno, x.col_offset)):
+        if x.id not in params and x.id not in seen:
+            seen.append(x.id)
+    return seen
 
 
 def _is_nonlinear_product(v):
